@@ -45,12 +45,32 @@ pub fn check_decode(drv: &mut Driver, ev: &mut Ev, enc: &'static Encoding, input
         let desc = || format!("enc={} api={} input={} (len {}, src alignment {})", enc.name(), api, hexs(input), input.len(), sa);
         let (got, used, _) = match r { Ok(x) => x, Err(e) => { ev.violation("oneshot-diff", &key("panic"), format!("one-shot call panicked: {} | {}", panic_message(&e), desc())); continue; } };
         // streaming reference
+        if !repl && input.len() > 256 {
+            // long input: the recording driver re-carves the rest of the stream after every Malformed result (quadratic for
+            // streams of thousands of errors); only "is there a malformed sequence, and the text if not" is needed here
+            let mut d = enc.new_decoder_without_bom_handling();
+            let mut buf = vec![0u8; d.max_utf8_buffer_length_without_replacement(input.len()).unwrap_or(input.len() * 3 + 16)];
+            let (res, _rd, wr) = d.decode_to_utf8_without_replacement(input, &mut buf, true); ev.api_calls += 1;
+            let malformed = matches!(res, DecoderResult::Malformed(..));
+            if res == DecoderResult::OutputFull { ev.count("oneshot-diff.reference-run-failed"); continue; }
+            match got {
+                None => { if !malformed { ev.violation("oneshot-diff", &key("None-without-malformed"), format!("returned None but the streaming decoder reports no malformed sequence | {}", desc())); } }
+                Some((text, _, borrowed, alias)) => {
+                    if malformed { ev.violation("oneshot-diff", &key("Some-with-malformed"), format!("returned Some although the streaming decoder reports a malformed sequence | {}", desc())); }
+                    else if text != str_scalars(std::str::from_utf8(&buf[..wr]).unwrap_or("")) { ev.violation("oneshot-diff", &key("text"), format!("one-shot text differs from streaming | {}", desc())); }
+                    if promised_borrow_dec(enc, input) && !borrowed { ev.violation("borrow", &key("not-borrowed-when-promised"), format!("documentation promises a borrow here but the result is Owned | {}", desc())); }
+                    if borrowed && !alias { ev.violation("borrow", &key("borrow-does-not-alias-input"), format!("Borrowed result does not alias the caller's bytes | {}", desc())); }
+                }
+            }
+            ev.state(H::new().s(crate::c01::family(enc)).s(api).u(malformed as u64).get(), || format!("{} {} malformed={}", crate::c01::family(enc), api, malformed));
+            continue;
+        }
         let case = DecCase::whole(enc, bom, Sink::U8, repl, input);
         let s = drv.run_dec(&case, ev);
         if s.fail_of(&[FailKind::Panic, FailKind::Stuck]).is_some() { ev.count("oneshot-diff.reference-run-failed"); continue; }
         if tr { println!("TRACE {} -> one-shot {:?} used={:?} | streaming items [{}] had={} encoding={}", desc(), got.as_ref().map(|g| (hex32(&g.0), g.1, g.2)), used.map(|e| e.name()), fmt_items(&s.items), s.had_any, s.final_enc.unwrap().name()); }
         let off = bom_len(enc, bom, input);
-        let eff = model_decode_stream(enc, bom, input).0;
+        let eff = model_decode_stream(enc, bom, &input[..input.len().min(3)]).0; // the encoding switch is decided by the first three bytes
         if repl {
             let (text, had, borrowed, alias) = got.unwrap();
             if text != s.scalars() { ev.violation("oneshot-diff", &key("text"), format!("one-shot text [{}] differs from streaming [{}] | {}", hex32(&text), hex32(&s.scalars()), desc())); }
@@ -154,12 +174,12 @@ pub fn run(ctx: &Ctx, ev: &mut Ev) {
             }
         }
     }
-    // (a3) dense: maximal-expansion streams of every length (0..1500 quick, 0..3000 thorough, then both sides of powers of two / page multiples) across the one-shot APIs' allocation decisions (first
+    // (a3) dense: maximal-expansion streams of every length (0..1500 quick, 0..4500 thorough, then both sides of powers of two / page multiples) across the one-shot APIs' allocation decisions (first
     // allocation = min(next_power_of_two(without-replacement bound), with-replacement bound), reserve + retry on
     // OutputFull), ending in tails that leave the converter owing output when the input runs out
     if ctx.want("dense") && !tiny {
         let sm = ctx.stride_mult() as usize;
-        let maxn: usize = if th { 3000 } else { 1500 };
+        let maxn: usize = if th { 4500 } else { 1500 };
         let near = |x: usize| -> bool { let mut p = 64usize; while p <= 1 << 17 { if x + 6 >= p && x <= p + 6 { return true; } p *= 2; } let m = x % 4096; x > 4000 && (m <= 6 || m >= 4090) };
         let encs: [&'static Encoding; 14] = [ISO_2022_JP, GB18030, GBK, UTF_16LE, UTF_16BE, UTF_8, EUC_KR, EUC_JP, SHIFT_JIS, BIG5, WINDOWS_1252, X_USER_DEFINED, REPLACEMENT, IBM866];
         for &enc in encs.iter() {
